@@ -247,7 +247,9 @@ struct MathExplorer
     void run_special();
     template <class T>
     void run_placement();
-    bool mode_special = false, mode_placement = false;
+    template <class T>
+    void run_complex();
+    bool mode_special = false, mode_placement = false, mode_complex = false;
 };
 
 template <class T>
@@ -1067,6 +1069,326 @@ void MathExplorer::run_placement()
     }
 }
 
+
+// ---------------------------------------------------------------------------------------------
+// C16: complex batches against std::complex<long double> on a log-polar grid
+// ---------------------------------------------------------------------------------------------
+#include <complex>
+typedef std::complex<long double> cld;
+struct CFun
+{
+    const char* name;
+    int kind; // as in harness/h_complex.cpp
+    double eps_mult; // tolerance in eps of max(|result|, 1); 0 = exact
+    int rule; // 0 unary/plain, 1 product-like (operands must keep products in range), 2 tan/tanh box, 3 fused (scale incl. |a b| and |c|), 4 exp-like
+    cld (*ref)(cld a, cld b, cld c, long double y);
+};
+static cld r_log2(cld a) { return std::log(a) / logl(2.0L); }
+static const CFun CFUNS[] = {
+    { "c.add", 1, 8, 0, [](cld a, cld b, cld, long double) { return a + b; } },
+    { "c.sub", 1, 8, 0, [](cld a, cld b, cld, long double) { return a - b; } },
+    { "c.mul", 1, 8, 1, [](cld a, cld b, cld, long double) { return a * b; } },
+    { "c.div", 1, 8, 1, [](cld a, cld b, cld, long double) { return a / b; } },
+    { "c.fma", 6, 8, 3, [](cld a, cld b, cld c, long double) { return a * b + c; } },
+    { "c.fms", 6, 8, 3, [](cld a, cld b, cld c, long double) { return a * b - c; } },
+    { "c.fnma", 6, 8, 3, [](cld a, cld b, cld c, long double) { return -(a * b) + c; } },
+    { "c.fnms", 6, 8, 3, [](cld a, cld b, cld c, long double) { return -(a * b) - c; } },
+    { "c.eq", 3, 0, 0, [](cld a, cld b, cld, long double) { return cld(a == b ? 1 : 0, 0); } },
+    { "c.ne", 3, 0, 0, [](cld a, cld b, cld, long double) { return cld(a != b ? 1 : 0, 0); } },
+    { "c.neg", 0, 0, 0, [](cld a, cld, cld, long double) { return -a; } },
+    { "c.real", 2, 0, 0, [](cld a, cld, cld, long double) { return cld(a.real(), 0); } },
+    { "c.imag", 2, 0, 0, [](cld a, cld, cld, long double) { return cld(a.imag(), 0); } },
+    { "c.conj", 0, 0, 0, [](cld a, cld, cld, long double) { return std::conj(a); } },
+    { "c.proj", 0, 0, 0, [](cld a, cld, cld, long double) { return a; } }, // finite operands: the identity
+    { "c.norm", 2, 32, 1, [](cld a, cld, cld, long double) { return cld(std::norm(a), 0); } },
+    { "c.abs", 2, 32, 0, [](cld a, cld, cld, long double) { return cld(std::abs(a), 0); } },
+    { "c.arg", 2, 32, 0, [](cld a, cld, cld, long double) { return cld(std::arg(a), 0); } },
+    { "c.polar", 5, 32, 0, [](cld a, cld, cld, long double y) { return std::polar(a.real(), y); } },
+    { "c.exp", 0, 8, 4, [](cld a, cld, cld, long double) { return std::exp(a); } },
+    { "c.expm1", 0, 8, 4, [](cld a, cld, cld, long double) { return cld(expm1l(a.real()) * cosl(a.imag()) - 2 * sinl(a.imag() / 2) * sinl(a.imag() / 2), expl(a.real()) * sinl(a.imag())); } },
+    { "c.log", 0, 32, 0, [](cld a, cld, cld, long double) { return std::log(a); } },
+    { "c.log2", 0, 32, 0, [](cld a, cld, cld, long double) { return r_log2(a); } },
+    { "c.log10", 0, 32, 0, [](cld a, cld, cld, long double) { return std::log10(a); } },
+    { "c.sqrt", 0, 8, 0, [](cld a, cld, cld, long double) { return std::sqrt(a); } },
+    { "c.sin", 0, 8, 4, [](cld a, cld, cld, long double) { return std::sin(a); } },
+    { "c.cos", 0, 8, 4, [](cld a, cld, cld, long double) { return std::cos(a); } },
+    { "c.sinh", 0, 8, 4, [](cld a, cld, cld, long double) { return std::sinh(a); } },
+    { "c.cosh", 0, 8, 4, [](cld a, cld, cld, long double) { return std::cosh(a); } },
+    { "c.tan", 0, 32, 2, [](cld a, cld, cld, long double) { return std::tan(a); } },
+    { "c.tanh", 0, 32, 2, [](cld a, cld, cld, long double) { return std::tanh(a); } },
+    { "c.pow", 4, 32, 1, [](cld a, cld, cld, long double y) { return std::pow(a, cld(y, 0)); } },
+    { "c.sincos", 7, 8, 4, [](cld a, cld, cld, long double) { return std::sin(a); } },
+};
+
+template <class T>
+static std::vector<std::pair<T, T>> cgrid(int kstep, int nang, uint64_t seed, bool with_zero, int nseed = 64, bool box = true)
+{
+    std::vector<std::pair<T, T>> g;
+    const int K = std::is_same<T, float>::value ? 40 : 300;
+    const long double PI = 3.14159265358979323846264338327950288L;
+    for (int k = -K; k <= K; k += kstep)
+    {
+        T r = (T)std::ldexp(1.0L, k);
+        for (int j = 0; j < nang; ++j)
+        {
+            long double th = 2 * PI * j / nang;
+            g.push_back({ (T)(r * cosl(th)), (T)(r * sinl(th)) });
+        }
+        // the four axes with both signs of the zero part, and one ulp off each axis
+        T tiny = r * std::numeric_limits<T>::epsilon();
+        for (T sgn : { (T)1, (T)-1 })
+        {
+            g.push_back({ sgn * r, (T)0.0 });
+            g.push_back({ sgn * r, (T)-0.0 });
+            g.push_back({ (T)0.0, sgn * r });
+            g.push_back({ (T)-0.0, sgn * r });
+            g.push_back({ sgn * r, tiny });
+            g.push_back({ sgn * r, -tiny });
+            g.push_back({ tiny, sgn * r });
+            g.push_back({ -tiny, sgn * r });
+        }
+    }
+    if (with_zero)
+    {
+        g.push_back({ (T)0, (T)0 });
+        g.push_back({ (T)-0.0, (T)0 });
+        g.push_back({ (T)0, (T)-0.0 });
+    }
+    for (T a : { (T)0.5, (T)1.5, (T)3, (T)10, (T)19.5 })
+        for (T b : { (T)0.25, (T)1, (T)2.5, (T)7, (T)20 })
+        {
+            if (!box)
+                break;
+            g.push_back({ a, b });
+            g.push_back({ -a, b });
+            g.push_back({ a, -b });
+            g.push_back({ -b, -a });
+        }
+    uint64_t s = seed * 313 + 5;
+    for (int k = 0; k < nseed; ++k)
+    {
+        uint64_t r1 = splitmix64(s), r2 = splitmix64(s);
+        long double m1 = 1.0L + (long double)(r1 >> 12) / (long double)(1ull << 52), m2 = 1.0L + (long double)(r2 >> 12) / (long double)(1ull << 52);
+        g.push_back({ (T)(std::ldexp(m1, (int)(r1 % 20) - 10) * ((r1 >> 40 & 1) ? -1 : 1)), (T)(std::ldexp(m2, (int)(r2 % 20) - 10) * ((r2 >> 40 & 1) ? -1 : 1)) });
+    }
+    return g;
+}
+
+template <class T>
+void MathExplorer::run_complex()
+{
+    constexpr int elem = std::is_same<T, float>::value ? XV_F32 : XV_F64;
+    const long double EPS = std::numeric_limits<T>::epsilon();
+    const long double MAX = mlim<T>::MAX, MIN = mlim<T>::MIN;
+    const long double PLIM_HI = sqrtl(MAX) / 4, PLIM_LO = sqrtl(MIN) * 4;
+    auto G1 = cgrid<T>(std::is_same<T, float>::value ? 2 : 12, 64, seed, true);
+    auto G2 = cgrid<T>(std::is_same<T, float>::value ? 8 : 60, 12, seed, true);
+    auto G3 = cgrid<T>(std::is_same<T, float>::value ? 20 : 150, 4, seed, false, 8, false);
+    const std::vector<long double> YS = { -3, -2, -1, -0.5L, 0.5L, 1, 2, 3, 2.5L, 10, 0.3333333L };
+    for (auto& f : CFUNS)
+    {
+        if (!only.empty() && !only.count(f.name))
+            continue;
+        auto impls = impls_of(f.name, elem, "C16");
+        if (impls.empty())
+            continue;
+        // operand tuples for this function
+        struct Tup
+        {
+            T a0, a1, b0, b1, c0, c1;
+        };
+        std::vector<Tup> tups;
+        if (f.kind == 0 || f.kind == 2 || f.kind == 7)
+            for (auto& z : G1)
+                tups.push_back({ z.first, z.second, 0, 0, 0, 0 });
+        else if (f.kind == 1 || f.kind == 3)
+            for (auto& z : G2)
+                for (auto& w : G2)
+                    tups.push_back({ z.first, z.second, w.first, w.second, 0, 0 });
+        else if (f.kind == 6)
+            for (auto& z : G3)
+                for (auto& w : G3)
+                    for (auto& u : G3)
+                        tups.push_back({ z.first, z.second, w.first, w.second, u.first, u.second });
+        else if (f.kind == 4)
+            for (auto& z : G2)
+                for (long double y : YS)
+                    tups.push_back({ z.first, z.second, (T)y, 0, 0, 0 });
+        else if (f.kind == 5)
+            for (auto& z : G2)
+                for (int j = -64; j <= 64; ++j)
+                    tups.push_back({ (T)fabsl(z.first), (T)(j * 0.0981747704246810387L + (j % 3) * 0.01L), 0, 0, 0, 0 });
+        if (f.kind == 3) // equality: add identical pairs
+            for (auto& z : G1)
+                tups.push_back({ z.first, z.second, z.first, z.second, 0, 0 });
+        while (tups.size() % 64)
+            tups.push_back(tups[tups.size() % 7]);
+        const size_t N = tups.size();
+        const std::string fkey = std::string(f.name) + "<" + xv_type_name[elem] + ">";
+        if (!stats.count(fkey))
+            stats[fkey].reset(new FnStats);
+        FnStats& ST = *stats[fkey];
+        notes.push_back(fkey + ": " + std::to_string(N) + " operand tuples of the log-polar grid (moduli 2^k, 64 arguments, axes with both signs of zero, +-1 ulp off the axes, seed points)");
+        const size_t BLK = 1u << 13;
+        const uint64_t nblocks = (N + BLK - 1) / BLK;
+        std::vector<std::atomic<uint64_t>> unk(impls.size());
+        for (auto& u : unk)
+            u = 0;
+        parallel_for(nblocks, nthreads, [&](int, uint64_t blk)
+                     {
+            const size_t n = (size_t)std::min<uint64_t>(BLK, N - blk * BLK);
+            std::vector<T> in[6], out[4];
+            for (auto& v : in)
+                v.assign(BLK, (T)1);
+            for (auto& v : out)
+                v.assign(BLK, (T)0);
+            for (size_t e = 0; e < n; ++e)
+            {
+                const Tup& t = tups[blk * BLK + e];
+                in[0][e] = t.a0;
+                in[1][e] = t.a1;
+                in[2][e] = t.b0;
+                in[3][e] = t.b1;
+                in[4][e] = t.c0;
+                in[5][e] = t.c1;
+            }
+            ST.points += n;
+            // reference values and premises, once per block
+            std::vector<cld> W(n), W2(n);
+            std::vector<char> use(n, 0);
+            for (size_t e = 0; e < n; ++e)
+            {
+                const Tup& t = tups[blk * BLK + e];
+                cld a(t.a0, t.a1), b(t.b0, t.b1), c(t.c0, t.c1);
+                long double y = f.kind == 4 ? (long double)t.b0 : (f.kind == 5 ? (long double)t.a1 : 0);
+                if (f.kind == 5)
+                    a = cld(t.a0, 0);
+                auto inrange = [&](cld z)
+                {
+                    long double m = std::abs(z);
+                    return m == 0 || (m < PLIM_HI && m > PLIM_LO);
+                };
+                if (f.rule == 1 || f.rule == 3)
+                    if (!inrange(a) || (f.kind != 4 && !inrange(b)) || (f.rule == 3 && !inrange(c)))
+                        continue;
+                const std::string fname = f.name;
+                if (fname == "c.div" && std::abs(b) == 0)
+                    continue;
+                if (f.rule == 2 && (fabsl(a.real()) > 20 || fabsl(a.imag()) > 20))
+                    continue;
+                if (fname == "c.pow" && std::abs(a) == 0)
+                    continue;
+                if ((fname == "c.log" || fname == "c.log2" || fname == "c.log10" || fname == "c.arg") && std::abs(a) == 0)
+                    continue;
+                cld w = f.ref(a, b, c, y);
+                const long double mw = std::abs(w);
+                if (!(std::isfinite((double)w.real()) && std::isfinite((double)w.imag())) || mw > MAX / 4)
+                    continue;
+                if (f.rule == 4 && fmaxl(fabsl(a.real()), fabsl(a.imag())) > (std::is_same<T, float>::value ? 80 : 700))
+                    continue;
+                W[e] = w;
+                W2[e] = f.kind == 7 ? std::cos(a) : cld(0, 0);
+                use[e] = 1;
+            }
+            for (size_t ii = 0; ii < impls.size(); ++ii)
+            {
+                if (unk[ii] > 500)
+                    continue;
+                const MImpl& im = impls[ii];
+                const size_t L = (size_t)(im.op->lanes % 1000);
+                const std::string& arch = mods[(size_t)im.module].arch;
+                const void* ip[6] = { in[0].data(), in[1].data(), in[2].data(), in[3].data(), in[4].data(), in[5].data() };
+                void* op[4] = { out[0].data(), out[1].data(), out[2].data(), out[3].data() };
+                xv_ctx ctx;
+                memset(&ctx, 0, sizeof ctx);
+                im.op->fn(ip, op, (n + L - 1) / L * L, &ctx);
+                uint64_t jd = 0;
+                for (size_t e = 0; e < n; ++e)
+                {
+                    const Tup& t = tups[blk * BLK + e];
+                    cld a(t.a0, t.a1), b(t.b0, t.b1), c(t.c0, t.c1);
+                    long double y = f.kind == 4 ? (long double)t.b0 : (f.kind == 5 ? (long double)t.a1 : 0);
+                    if (f.kind == 5)
+                        a = cld(t.a0, 0);
+                    if (!use[e])
+                        continue;
+                    const cld w = W[e], w2 = W2[e];
+                    const long double mw = std::abs(w);
+                    ++jd;
+                    std::string why;
+                    if (f.kind == 3)
+                    {
+                        bool got = ((const uint8_t*)out[0].data())[e] != 0;
+                        if (got != (w.real() != 0))
+                            why = "comparison of both components";
+                    }
+                    else
+                    {
+                        long double scale = mw > 1 ? mw : 1.0L;
+                        if (std::string(f.name) == "c.add" || std::string(f.name) == "c.sub" || std::string(f.name) == "c.mul" || std::string(f.name) == "c.div")
+                            scale = mw; // relative to the result's modulus
+                        if (f.rule == 3)
+                            scale = fmaxl(mw, fmaxl(std::abs(a) * std::abs(b), std::abs(c)));
+                        if (scale < MIN * 16)
+                            continue; // result in the subnormal range: outside the claim
+                        long double tol = f.eps_mult * EPS * scale;
+                        long double ore = out[0][e], oim = (f.kind == 2) ? 0 : (long double)out[1][e];
+                        long double dre = fabsl(ore - w.real()), dim = (f.kind == 2) ? 0 : fabsl(oim - w.imag());
+                        bool bad = !(dre <= tol) || !(dim <= tol);
+                        if (f.eps_mult == 0)
+                            bad = !(to_bits<T>((T)w.real()) == to_bits<T>(out[0][e]) || ((T)w.real() == 0 && out[0][e] == 0 && f.kind == 2 && false)) || (f.kind != 2 && to_bits<T>((T)w.imag()) != to_bits<T>(out[1][e]));
+                        if (f.kind == 7 && !bad)
+                        {
+                            long double s2 = std::abs(w2) > 1 ? std::abs(w2) : 1.0L;
+                            bad = !(fabsl((long double)out[2][e] - w2.real()) <= f.eps_mult * EPS * s2) || !(fabsl((long double)out[3][e] - w2.imag()) <= f.eps_mult * EPS * s2);
+                        }
+                        if (bad)
+                        {
+                            char buf[300];
+                            snprintf(buf, sizeof buf, "result (%.9Lg, %.9Lg), std::complex<long double> gives (%.12Lg, %.12Lg): error (%.3Lg, %.3Lg) eps of the scale %.6Lg > %.0f eps", ore, oim, w.real(), w.imag(), dre / (EPS * scale), dim / (EPS * scale), scale, f.eps_mult);
+                            why = buf;
+                        }
+                        else
+                            ST.upd_maxerr((double)(fmaxl(dre, dim) / (EPS * scale)));
+                    }
+                    if (why.empty())
+                        continue;
+                    Violation v;
+                    v.prop = prop;
+                    v.op = f.name;
+                    v.arch = arch;
+                    v.elem = elem;
+                    v.lanes = (int)L;
+                    v.lane = (int)(e % L);
+                    v.nin = f.kind == 6 ? 4 : (f.kind == 0 || f.kind == 2 || f.kind == 7 || f.kind == 5 ? 2 : (f.kind == 4 ? 3 : 4));
+                    v.out_type = elem;
+                    size_t b0 = e - e % L;
+                    for (int k = 0; k < v.nin; ++k)
+                    {
+                        v.in_t[k] = elem;
+                        for (size_t l = 0; l < L; ++l)
+                            v.in[k].push_back(to_bits<T>(in[k][b0 + l]));
+                    }
+                    v.expected = to_bits<T>((T)w.real());
+                    v.observed = to_bits<T>(out[0][e]);
+                    char hd[200];
+                    snprintf(hd, sizeof hd, "%s((%.9Lg, %.9Lg)%s): ", f.name, (long double)t.a0, (long double)t.a1, f.kind == 1 || f.kind == 3 || f.kind == 6 ? (", (" + std::to_string((double)t.b0) + ", " + std::to_string((double)t.b1) + ")").c_str() : (f.kind == 4 || f.kind == 5 ? (", " + std::to_string((double)y)).c_str() : ""));
+                    v.note = std::string(hd) + why;
+                    v.oracle = "std::complex<long double> within the tolerance of C16";
+                    int fi = classify_complex(v, f.name, a, w, cld(out[0][e], f.kind == 2 ? 0 : out[1][e]), y);
+                    std::string fid = (fi >= 0 && known_open.count(math_findings()[(size_t)fi].id)) ? math_findings()[(size_t)fi].id : "";
+                    if (fid.empty())
+                        ++unk[ii];
+                    record(std::move(v), fid);
+                }
+                ST.judged += jd;
+                std::lock_guard<std::mutex> g(mu);
+                per_arch[arch] += n;
+            } });
+        states += N;
+    }
+}
+
 template <class T>
 void MathExplorer::run_all()
 {
@@ -1123,6 +1445,8 @@ int main(int argc, char** argv)
             E.mode_special = true;
         else if (a == "--placement")
             E.mode_placement = true;
+        else if (a == "--complex")
+            E.mode_complex = true;
         else if (a == "--only")
             for (auto& s : split(next(), ','))
                 E.only.insert(s);
@@ -1299,7 +1623,14 @@ int main(int argc, char** argv)
 
     for (auto& ty : split(types, ','))
     {
-        if (E.mode_special)
+        if (E.mode_complex)
+        {
+            if (ty == "float")
+                E.run_complex<float>();
+            else if (ty == "double")
+                E.run_complex<double>();
+        }
+        else if (E.mode_special)
         {
             if (ty == "float")
                 E.run_special<float>();
